@@ -12,11 +12,21 @@ type orC03A struct {
 	lockLostAt map[string]time.Duration // incarnation -> instant its ownership of the lock znode ended (server truth)
 	ownedEver  map[string]bool
 	ownedSess  map[string]int64 // incarnation -> session in which it last created the lock znode
+	newSessAt  map[string]time.Duration // incarnation -> instant its latest session was established
+	newSess    map[string]int64
 }
 
 func (o *orC03A) name() string { return "C03A" }
 
 func (o *orC03A) onZK(e *ZKEvent) {
+	if e.Op == "session_new" {
+		if o.newSessAt == nil {
+			o.newSessAt = map[string]time.Duration{}
+			o.newSess = map[string]int64{}
+		}
+		o.newSessAt[e.Inc] = e.T
+		o.newSess[e.Inc] = e.Sess
+	}
 	o.onZKEventWrite(e)
 	if e.Err != 0 || e.Path != "/test/manager" {
 		return
@@ -78,6 +88,30 @@ func (o *orC03A) onSQL(ev *SQLEvent) {
 	if ev.Mutating && ev.Dst != srcHostOf(ev.Src) {
 		m.probe("c03_remote_mutation_checked")
 		o.checkActor(ev.Src, "remote:"+ev.Kind, ev.It)
+		// the switchover re-confirms the lock after catch-up: a process whose lock-owning session
+		// is gone and which had already established a new session (so it knows, and a re-check
+		// would have asked ZooKeeper) before its last catch-up poll does not go on re-pointing
+		if it := ev.It; it != nil && it.state == "Manager" && m.lockOwner != ev.Src {
+			if ls, ok := o.ownedSess[ev.Src]; ok && o.newSess[ev.Src] != 0 && o.newSess[ev.Src] != ls {
+				// catch-up polls = reads of gtid_executed after this attempt's last freeze statement
+				var p2 time.Duration = -1
+				var lastFreeze uint64
+				for _, e := range it.sql {
+					if e.Src == ev.Src && e.Seq < ev.Seq && (strings.HasPrefix(e.Query, "STOP SLAVE IO_THREAD") || strings.HasPrefix(e.Query, "STOP REPLICA IO_THREAD")) {
+						lastFreeze = e.Seq
+					}
+				}
+				for _, e := range it.sql {
+					if lastFreeze > 0 && e.Src == ev.Src && e.Seq > lastFreeze && e.Seq < ev.Seq && strings.HasPrefix(e.Query, "SELECT @@GLOBAL.gtid_executed") && e.toldOK() {
+						p2 = e.T
+					}
+				}
+				if _, sw := lastReadIn(it, "switch", ev.Seq); sw && p2 >= 0 && o.newSessAt[ev.Src] < p2 {
+					m.probe("c03_act_after_recheck_point_seen")
+					m.violate("C03", "no_recheck_after_catchup", "switchover-went-on-after-catch-up-without-the-lock", fmt.Sprintf("%s sent %q to %s at %v; its lock-owning session %x is gone, it has been in session %x since %v, before its last catch-up poll at %v (owner=%q)", ev.Src, ev.Query, ev.Dst, ev.T, ls, o.newSess[ev.Src], o.newSessAt[ev.Src], p2, m.lockOwner))
+				}
+			}
+		}
 	}
 	// (e) promotion re-confirms the lock
 	if ev.Applied && ev.Query == "SET GLOBAL read_only = 0" && ev.Dst != m.master {
